@@ -161,3 +161,45 @@ def run_many(fn, recs, trace_path, workers=None):
             else:
                 f.write(json.dumps(clean(ev)) + "\n")
     shutil.rmtree(root, ignore_errors=True)
+
+
+FAULT_BUILDING = """0, CONSUMO, ILU, ELECTRICIDAD, 4, 6
+0, PRODUCCION, EL_INSITU, 9, 1
+1, CONSUMO, CAL, GASNATURAL, 5, 5
+0, CONSUMO, NEPB, ELECTRICIDAD, 1, 1
+3, PRODUCCION, EL_COGEN, 2, 2
+3, CONSUMO, COGEN, GASNATURAL, 7, 7
+"""
+
+
+def fault_bytes(lines):
+    out = b""
+    for ln in lines:
+        out += b",".join(t.encode("utf-8").replace(b"<FF>", b"\xff") for t in ln) + b"\n"
+    return out
+
+
+def fault_cli_case(rec, root):
+    """the real program on the bytes of one MC_C16 file (default path: factors are simplified), or on a valid
+    text, or with one numeric option replaced by an atom"""
+    d = tempfile.mkdtemp(dir=root)
+    kind = rec.get("kind", "comps")
+    argv = []
+    if kind == "comps":
+        open(os.path.join(d, "in.csv"), "wb").write(fault_bytes(rec["lines"]))
+        argv = ["-c", "in.csv", "-l", "PENINSULA", "--json", "o.json", "--xml", "o.xml", "--txt", "o.txt", "--oc", "oc.csv", "--of", "of.csv"]
+    elif kind == "factors":
+        open(os.path.join(d, "in.csv"), "w").write(FAULT_BUILDING)
+        open(os.path.join(d, "fp.csv"), "wb").write(fault_bytes(rec["lines"]))
+        argv = ["-c", "in.csv", "-f", "fp.csv", "--json", "o.json", "--xml", "o.xml"]
+    elif kind == "text":
+        open(os.path.join(d, "in.csv"), "w").write(rec["text"])
+        argv = ["-c", "in.csv", "-l", rec.get("loc", "PENINSULA"), "--json", "o.json", "--xml", "o.xml", "--txt", "o.txt"] + rec.get("extra", [])
+    elif kind == "option":
+        open(os.path.join(d, "in.csv"), "w").write(FAULT_BUILDING)
+        argv = ["-c", "in.csv", "-l", "PENINSULA"] + rec["argv"]
+    res = run_proc(argv, d)
+    shutil.rmtree(d, ignore_errors=True)
+    return {"ev": "FaultCli", "case": rec["case"], "tag": "cli", "kind": kind, "argv": argv[4:] if kind == "option" else [],
+            "how": str(res["exit"]), "stderr_empty": res["stderr"].strip() == "",
+            "stderr_head": res["stderr"].strip()[:80]}
